@@ -944,6 +944,13 @@ class Evaluator:
     def builtin(self, callee, method, args, s):
         """folding of std combinators over known operands (ints mode); yields (state, value) or nothing when it does not apply"""
         c = callee or ""
+        if getattr(self, "vecs", False):
+            # a function item used as the callable of a combinator (`opt.map_or(false, is_whitespace)`) is applied like a closure without captures
+            conv = []
+            for x in args:
+                hh = self.F.hir.get(x[1]) if isinstance(x, tuple) and len(x) == 2 and x[0] == "def" and isinstance(x[1], str) else None
+                conv.append(("closure", x[1], {"params": hh["params"], "body": hh["body"]}, {}) if hh is not None and "body" in hh else x)
+            args = conv
         a0 = args[0] if args else None
         some = lambda x: ("v", "Some", [x])
         none = ("v", "None", [])
@@ -1059,6 +1066,10 @@ class Evaluator:
             yield s, ("iterv", list(seq0))
         elif seq0 is not None and method == "enumerate" and len(args) == 1:
             yield s, ("iterv", [("tuple", [("lit", i), x]) for i, x in enumerate(seq0)])
+        elif seq0 is not None and method == "get" and len(args) == 2 and args[1][0] == "lit" and isinstance(args[1][1], int) and not isinstance(args[1][1], bool) and getattr(self, "vecs", False):
+            yield s, (some(seq0[args[1][1]]) if 0 <= args[1][1] < len(seq0) else none)
+        elif a0 is not None and is_opt(a0) and method in ("copied", "cloned") and len(args) == 1:
+            yield s, a0
         elif seq0 is not None and method == "flatten" and len(args) == 1 and all(x[0] == "v" and x[1] in ("Some", "None") for x in seq0):
             yield s, ("iterv", [x[2][0] for x in seq0 if x[1] == "Some"])          # an iterator over options yields the payloads
         elif seq0 is not None and method == "zip" and len(args) == 2 and self.as_seq(args[1]) is not None:
